@@ -21,7 +21,7 @@ HARNESSES = [
 for seed in (1, 2, 5):
     HARNESSES.append(dict(COMMON, name="sets_s%d" % seed, entry="h_sets", defines={"SEED": seed}, encoded=["propagate_nodeset", "fixup_sets", "remove_unused_sets"], tiers={"quick": {}, "thorough": {}} if seed in (1, 5) else {"thorough": {}},
                           bounds="seed S%d tree shape; the CONTENTS of all four sets of every object, the allowed sets and INCLUDE_DISALLOWED symbolic (assuming only what insertion guarantees)" % seed, cost=80))
-for seed in (1, 2, 3, 4, 5, 6, 7, 8):
+for seed in (1, 2, 3, 4, 5, 6, 7, 8, 14):
     HARNESSES.append(dict(COMMON, name="seed_wf_s%d" % seed, entry="h_seed_wf", defines={"SEED": seed}, encoded=["hwloc_discover", "hwloc__insert_object_by_cpuset", "hwloc_insert_object_by_parent", "propagate_nodeset", "fixup_sets", "remove_unused_sets", "hwloc__reconnect", "hwloc_connect_children", "hwloc_connect_levels", "hwloc_connect_special_levels", "hwloc_filter_levels_keep_structure", "propagate_total_memory", "hwloc_propagate_symmetric_subtree"],
                           tiers={"quick": {}, "thorough": {}}, bounds="seed S%d through the complete real discovery pipeline (concrete), every C01 clause re-checked by an independent checker" % seed, cost=30))
 # sibling-list surgery (used when levels are merged) is shared with C02
